@@ -4,15 +4,15 @@ import json, os
 ROOT = os.path.dirname(os.path.dirname(os.path.abspath(__file__)))
 
 T = {
- "C01": ("round-trip monitor: generated valid packets encoded and decoded through all three front-ends under random delivery schedules; panic/overflow sanitizer build (chk), plain release build (rel), Miri shards",
+ "C01": ("round-trip monitor: generated valid packets encoded and decoded through all three front-ends under random delivery schedules; panic/overflow sanitizer build (chk), plain release build (rel), Miri shards, valgrind memcheck shards (thorough: plus ASan)",
          "Differential round trip over the complete code/flag/option/property-subset enumerations plus random and size-boundary values; every returned packet, reported total and body buffer is compared with what was sent. Exploration: held on the packets generated, not a proof."),
- "C02": ("length-agreement monitor: counting sinks on every public Encodable part, fixed-header re-parse by a reference var-int reader, chk-vs-rel rolling-hash comparison, oversize packets built with shared buffers",
+ "C02": ("length-agreement monitor: counting sinks on every public Encodable part, fixed-header re-parse by a reference var-int reader, chk-vs-rel rolling-hash comparison, oversize packets built with shared buffers; valgrind memcheck shards (thorough: plus ASan)",
          "encode_len vs bytes written, remaining-length field vs bytes following, each body/property part vs its own encode_len, in a build with debug assertions + overflow checks and in a plain release build whose outputs must hash identically; packets of >= 2^28 must be refused with InvalidVarByteInt (never a panic)."),
- "C03": ("hostile-input workload under sanitizers: panic/overflow build, allocation meter, transport step counter, Miri shards (quick); plus ASan build, valgrind memcheck shards and plain release (thorough)",
+ "C03": ("hostile-input workload under sanitizers: panic/overflow build, allocation meter, transport step counter, Miri and valgrind memcheck shards, deterministic validator-boundary catalogue (quick); plus ASan build and libFuzzer (thorough)",
          "Every decoder entry point is run on exhaustive short strings, header sweeps, random and structure-aware corrupted inputs while the panic monitor, a counting allocator (single request > 2^28+64KiB), a read counter (spinning) and UB interpreters / memory sanitizers watch."),
  "C04": ("reference-model differential: independent MQTT 3.1.1/5.0 decoder classifies each complete frame (must-accept / must-reject / don't-care) and yields spec-level fields compared with the poll decoder's result",
          "Acceptance and field values of the strict poll decoder against an executable reference grammar, over grammar-generated frames, catalogue malformations, structure-aware and byte mutations, and all control bytes with tiny bodies."),
- "C05": ("schedule exploration with scripted AsyncRead: exhaustive chunkings x Pending placements x {future kept, re-created} for short streams, random edge-biased schedules and clone-and-resume for long ones; oracle = uninterrupted run + transport request log + state snapshots; Miri shards",
+ "C05": ("schedule exploration with scripted AsyncRead: exhaustive chunkings x Pending placements x {future kept, re-created} for short streams, random edge-biased schedules and clone-and-resume for long ones; oracle = uninterrupted run + transport request log + state snapshots; Miri shards (thorough: plus ASan, memcheck, libFuzzer over schedule x stream)",
          "Self-differential against the uninterrupted run; the transport log decides over-asking, invented/swallowed Pending, lost wake-ups and consumed-vs-reported bytes; PollPacketState snapshots decide resume-point consistency."),
  "C06": ("self-differential monitor over the three decoder front-ends on hostile byte strings, exactly as the statement words the agreement",
          "blocking == async with EOF mapped to incomplete (packets and bare headers); poll-accepted => same packet everywhere; poll-rejected with a non-remaining-length error => same error everywhere; the evidence lists the error variants on which agreement was actually observed."),
@@ -20,7 +20,7 @@ T = {
          "Every cut position of every generated encoding must be reported incomplete (Ok(None) / is_eof()), and the encoding followed by other bytes must decode to the same packet with exactly its own bytes consumed."),
  "C08": ("conservation/order checker over a recorded transport history: packet sequences decoded one at a time from one scripted reader with chunk boundaries straddling packets",
          "Decoded sequence == generated sequence, byte counts add up, reader position after each decode == packet end, no read beyond the current frame, clean end-of-input afterwards; blocking front-end advanced by encode_len and independently by the public header helpers."),
- "C09": ("encoder differential with scripted AsyncWrite / io::Write sinks: partial writes, Pending placements (exhaustive for 2/4-byte packets), repeated calls, body stream vs packet bytes; chk and rel builds",
+ "C09": ("encoder differential with scripted AsyncWrite / io::Write sinks: partial writes, Pending placements (exhaustive for 2/4-byte packets), repeated calls, body stream vs packet bytes; chk and rel builds, valgrind memcheck shards (thorough: plus Miri, ASan)",
          "All encoder entry points must deliver exactly encode()'s bytes whatever the sink accepts per call; packet bytes == fixed header ++ streamed body."),
  "C10": ("independent-decoder conformance monitor: the crate's encodings parsed by the reference decoder (own number tables); run fails unless every code/property/level table entry was observed on the wire",
          "The reference decoder must accept the encoder's output, with minimal var-ints, and recover exactly the original field values; a constant changed consistently in encoder and decoder is visible because the oracle does not use the crate's tables."),
